@@ -2,6 +2,7 @@ package exporter
 
 import (
 	"math"
+	"strconv"
 	"time"
 
 	"github.com/google/mtail/internal/metrics"
@@ -89,6 +90,23 @@ func HarnessC22() {
 	vAssert(len(lsBoth) == 2 && len(lsOnly) == 1, "C22.enumeration")
 	if len(lsBoth) != 2 || len(lsOnly) != 1 {
 		return
+	}
+	// the value text every formatter prints denotes the datum's value: it
+	// parses back to exactly that number
+	for i, ls := range lsBoth {
+		v := []c22Val{v1, v2}[i]
+		txt := ls.Datum.ValueString()
+		switch typ {
+		case metrics.Int:
+			n, err := strconv.ParseInt(txt, 10, 64)
+			vAssert(err == nil && n == v.i, "C22.value-text-denotes-the-label-sets-value")
+		case metrics.Float:
+			f, err := strconv.ParseFloat(txt, 64)
+			vAssert(err == nil && vFloatSame(f, v.f), "C22.value-text-denotes-the-label-sets-value")
+		case metrics.Buckets:
+			f, err := strconv.ParseFloat(txt, 64)
+			vAssert(err == nil && vFloatSame(f, 0+v.obs[0]+v.obs[1]), "C22.value-text-denotes-the-label-sets-value")
+		}
 	}
 	fmtr := nondetRange("format", 0, 3)
 	render := func(m *metrics.Metric, l *metrics.LabelSet) string {
